@@ -26,6 +26,18 @@ HARNESSES = [
        tiers={"quick": {}, "thorough": {}}, bounds="seed S1; loaded state symbolic; refusal case: any cpuset outside the topology (any filter)", cost=30),
   dict(COMMON, name="group_unloaded", entry="h_misc_group_args", defines={"WHICH": 1, "GC": 1, "LOADED": 0}, encoded=["hwloc_topology_alloc_group_object"],
        tiers={"quick": {}, "thorough": {}}, bounds="seed S1 marked not loaded: alloc_group refuses"),
-]
+  ]
+for opl, nm in ((0, "prepend"), (1, "append")):
+  for na in (0, 1, 2, 3):
+    for nb in ((1, 2, 3) if opl == 0 else (0, 1, 2, 3)):
+      tiers = {"thorough": {}}
+      if (na, nb) in ((0, 1), (2, 2), (1, 3), (3, 1)): tiers["quick"] = {}
+      HARNESSES.append(dict(COMMON, name="siblings_%s_%d_%d" % (nm, na, nb), entry="h_siblings", defines={"OPL": opl, "NA": na, "NB": nb}, encoded=[nm + "_siblings_list"], tiers=tiers, unwind=10,
+                            bounds="%s a well-formed list of %d objects to a well-formed list of %d (concrete lengths, exhaustive over 0..3 in thorough)" % (nm, nb, na), cost=5))
+# the insertion step (incl. the put-back of a refused insertion) is shared with C01
+import importlib.util as _iu
+_s = _iu.spec_from_file_location("spec_C01", os.path.join(os.path.dirname(__file__), "C01.py")); _m = _iu.module_from_spec(_s); _s.loader.exec_module(_m)
+for _h in _m.HARNESSES:
+    if _h["name"] == "insert_nested2": _h2 = dict(_h); _h2["name"] = "C01_" + _h["name"]; HARNESSES.append(_h2)      # the put-back of a refused insertion
 OUTSIDE = ["successful Group insertion + reconnect, restrict on inner objects, distance-based grouping (tree surgery under symbolic control)", "arbitrary-length call histories except through the one-step argument on the asserted invariants",
            "cpukinds (C15), distances (C13), memattrs (C14) steps are decided by their own properties"]
